@@ -139,7 +139,8 @@ PROPS = {
     },
     "C10": {
         "theorems": T("C10", ["contains_index_safe", "contains_lookup_some", "render_total", "window_index_safe", "ignore_set_wellformed", "run_total"]),
-        "suites": [("bin", {"mode": "crash"}), ("prog", {"focus": "PANIC", "n": 150}), ("prog", {"focus": "PANIC", "n": 60, "scan": "1", "testfiles": "1", "nocorpus": "1"})],
+        "suites": [("bin", {"mode": "crash"}), ("prog", {"focus": "PANIC", "n": 150}), ("prog", {"focus": "PANIC", "n": 60, "scan": "1", "testfiles": "1", "nocorpus": "1"}),
+                   ("excerpt", {"focus": "PANIC"})],
         "binary": True,
         "assumptions": ["PARTIAL: panics inside go/types, go/packages, the drivers; memory exhaustion; scheduler hangs are outside the model", "termination of the modelled logic is Lean's structural recursion over finite lists"],
         "trusted_base": ["hand-written whole-program model GGV.Model.Prog, tied by the prog correspondence (real analyzers in-process vs model)", "APF extractor (go/ast + go/types, independent of gogreement)"],
